@@ -94,6 +94,7 @@ PROPS = {
  ),
  'C12': dict(
     group='serve', only=['serve'], ops=['serve'],
+    klass=lambda c: 'serve:' + (c['model'] or ['?'])[0] + ':frames' + str(min(4, c['args'][1].count('|') + (0 if c['args'][1] == '[]' else 1))),
     modules=['Ysshra.Props.C12', 'Ysshra.Bridge.Wire'],
     theorem_files=['Props/C12.lean', 'Bridge/Wire.lean'],
     anchors=['agent/yubiagent/'],
@@ -109,6 +110,7 @@ PROPS = {
  ),
  'C13': dict(
     group='serve', only=['rpc', 'slots'], ops=['rpc', 'slots'],
+    klass=lambda c: c['op'] + ':' + (c['args'][0] if c['op'] == 'rpc' else c['args'][2]) + ':' + ((c['model'] or ['?', '?'])[-1].split(' ')[0].split(':')[0])[:12],
     modules=['Ysshra.Props.C13', 'Ysshra.Bridge.Wire'],
     theorem_files=['Props/C13.lean'],
     anchors=['agent/yubiagent/'],
@@ -125,6 +127,7 @@ PROPS = {
  ),
  'C20': dict(
     group='conc', only=['cond'], ops=['cond'],
+    klass=lambda c: 'cond:events' + str(c['args'][0].count(',') + 1),
     modules=['Ysshra.Props.C20', 'Ysshra.Bridge.Wire'],
     theorem_files=['Props/C20.lean', 'Bridge/Wire.lean'],
     anchors=['agent/shimagent/shimserver.go', 'agent/yubiagent/server.go'],
@@ -140,6 +143,7 @@ PROPS = {
  ),
  'C07': dict(
     group='shim', only=['hist'], ops=['hist'],
+    klass=lambda c: 'hist:noup' + c['args'][0] + ':ops' + str(min(25, 5 * (c['args'][3].count(';') // 5))) + ('+faults' if '!' in c['args'][3] else ''),
     modules=['Ysshra.Props.C07'],
     theorem_files=['Props/C07.lean'],
     anchors=['agent/shimagent/', 'sshutils/cert/validation.go'],
@@ -152,6 +156,7 @@ PROPS = {
  ),
  'C08': dict(
     group='shim', only=['hist'], ops=['hist'],
+    klass=lambda c: 'hist:noup' + c['args'][0] + ':ops' + str(min(25, 5 * (c['args'][3].count(';') // 5))) + ('+faults' if '!' in c['args'][3] else ''),
     modules=['Ysshra.Props.C08'],
     theorem_files=['Props/C08.lean'],
     anchors=['agent/shimagent/', 'sshutils/cert/validation.go'],
@@ -164,6 +169,7 @@ PROPS = {
  ),
  'C09': dict(
     group='shim', only=['hist'], ops=['hist'],
+    klass=lambda c: 'hist:noup' + c['args'][0] + ':ops' + str(min(25, 5 * (c['args'][3].count(';') // 5))) + ('+faults' if '!' in c['args'][3] else ''),
     modules=['Ysshra.Props.C09'],
     theorem_files=['Props/C09.lean'],
     anchors=['agent/shimagent/', 'sshutils/cert/validation.go'],
@@ -176,6 +182,7 @@ PROPS = {
  ),
  'C10': dict(
     group='shim', only=['hist', 'weird'], ops=['hist'],
+    klass=lambda c: 'hist:noup' + c['args'][0] + ':ops' + str(min(25, 5 * (c['args'][3].count(';') // 5))) + ('+faults' if '!' in c['args'][3] else ''),
     modules=['Ysshra.Props.C10'],
     theorem_files=['Props/C10.lean'],
     anchors=['agent/shimagent/', 'sshutils/cert/validation.go'],
